@@ -16,6 +16,7 @@ mod c10;
 mod c11;
 mod c12;
 mod c13;
+mod c14;
 mod c15;
 mod c18;
 mod cat;
@@ -96,6 +97,7 @@ fn registry(property: &str) -> Option<(RunFn, ReplayFn)> {
         "C11" => Some((c11::run, c11::replay)),
         "C12" => Some((c12::run, c12::replay)),
         "C13" => Some((c13::run, c13::replay)),
+        "C14" => Some((c14::run, c14::replay)),
         "C15" => Some((c15::run, c15::replay)),
         "C18" => Some((c18::run, c18::replay)),
         "C19" => Some((c05::run_c19, c05::replay_c19)),
